@@ -116,6 +116,7 @@ func (w *World) subscribe(id int, n *Node, mode, when string, base map[string]Ob
 type streamViolation struct {
 	Rule string
 	Msg  string
+	Pos  int // index of the offending event in the subscriber's stream
 }
 
 // advance runs the automaton over the events recorded since the last call.
@@ -154,7 +155,7 @@ func (s *Sub) advance(noopRule bool) (checked int, vs []streamViolation) {
 		for _, l := range hist {
 			ctx += l
 		}
-		vs = append(vs, streamViolation{Rule: rule, Msg: fmt.Sprintf(format, a...) + "; events of this subscriber for the key:" + ctx})
+		vs = append(vs, streamViolation{Rule: rule, Pos: s.pos + i, Msg: fmt.Sprintf(format, a...) + "; events of this subscriber for the key:" + ctx})
 	}
 	for i, e := range evs {
 		var key string
